@@ -38,6 +38,7 @@ type Tier struct {
 	BudgetS   float64 // wall-clock cap per worker for the seeded part
 	StepCap   int64
 	RaceCount int // seeded runs of the -race batch (0 = none)
+	Fidelity  int // scenarios of the stub-fidelity cross-check run first (0 = none)
 }
 
 // Job / Output mirror the worker's types (overlay/internal/zzsim/zzmain).
@@ -446,6 +447,23 @@ func runCheck(prop, tier, replayPath string) int {
 	if len(kinds) == 0 {
 		kinds = []string{""}
 	}
+	fidelityAgreed := int64(-1)
+	if t.Fidelity > 0 {
+		n, bad, ferr := runFidelity(bin, b, tmp, env, seed, t.Fidelity, nw)
+		if ferr != nil {
+			fmt.Fprintln(os.Stderr, "STUB-FIDELITY CROSS-CHECK: harness trouble (exit 2):", ferr)
+			return 2
+		}
+		if len(bad) > 0 {
+			fmt.Fprintln(os.Stderr, "STUB-FIDELITY CROSS-CHECK FAILED (exit 2: the simulator's stubs disagree with real os/exec and OS pipes; not a violation of the property):")
+			for _, m := range bad {
+				fmt.Fprintln(os.Stderr, m)
+			}
+			return 2
+		}
+		fidelityAgreed = n
+		fmt.Printf("stub-fidelity cross-check: %d scenarios executed in the simulator and with real processes agree\n", n)
+	}
 	type batch struct {
 		bin   string
 		env   []string
@@ -569,6 +587,9 @@ func runCheck(prop, tier, replayPath string) int {
 		}
 	}
 	_ = raceBuild
+	if fidelityAgreed >= 0 {
+		a.counts["traces_validated_against_impl"] = fidelityAgreed
+	}
 	if raceRuns > 0 {
 		a.counts["race-tier.runs (-race build, baton invisible to the detector)"] = raceRuns
 	}
@@ -748,6 +769,31 @@ func raceSummary(log string) string {
 		}
 	}
 	return strings.Join(out, " / ")
+}
+
+// runFidelity runs the stub-fidelity cross-check: scenarios executed in the
+// simulator and for real must agree on the schedule-independent observables.
+func runFidelity(bin string, b *Build, tmp string, env []string, seed uint64, count, nw int) (int64, []string, error) {
+	var jobs []Job
+	for w := 0; w < nw; w++ {
+		jobs = append(jobs, Job{Prop: "FIDELITY", Tier: "quick", Mode: "search", Seed: seed, Worker: w, Stride: nw, Count: count, TmpDir: tmp, MaxViol: 3, ShrinkS: 1, Kind: "fidelity"})
+	}
+	outs, crashed, err := runWorkers(bin, jobs, b.Dir+"/fidelity", env, 30*time.Minute)
+	if err != nil {
+		return 0, nil, err
+	}
+	if len(crashed) > 0 {
+		return 0, nil, fmt.Errorf("worker crashed: %s", crashed[0])
+	}
+	var agreed int64
+	var bad []string
+	for _, o := range outs {
+		agreed += o.Counts["fidelity.agreements"]
+		for _, v := range o.Violations {
+			bad = append(bad, v.Msg)
+		}
+	}
+	return agreed, bad, nil
 }
 
 func firstLine(s string) string {
@@ -952,5 +998,36 @@ func runSelftest() int {
 		return 2
 	}
 	fmt.Println("determinism self-test passed")
+	return 0
+}
+
+// runFidelityCmd is `bin/check fidelity`: the stub-fidelity cross-check alone.
+func runFidelityCmd() int {
+	b, err := PrepareBuild(buildOpts{Tag: "fidelity", NeedRoot: true})
+	defer b.Cleanup()
+	if err != nil {
+		fmt.Fprintln(os.Stderr, "BUILD FAILED:", err)
+		return 2
+	}
+	tmp := tmpBase(b)
+	defer os.RemoveAll(tmp)
+	n := 2000
+	if s := os.Getenv("VSIM_FIDELITY_N"); s != "" {
+		if v, err := strconv.Atoi(s); err == nil {
+			n = v
+		}
+	}
+	agreed, bad, ferr := runFidelity(b.SimTest, b, tmp, goEnv(), verifSeed(), n, nWorkers())
+	if ferr != nil {
+		fmt.Fprintln(os.Stderr, "harness trouble:", ferr)
+		return 2
+	}
+	for _, m := range bad {
+		fmt.Println(m)
+	}
+	fmt.Printf("stub-fidelity cross-check: %d scenarios agree, %d disagree\n", agreed, len(bad))
+	if len(bad) > 0 {
+		return 2
+	}
 	return 0
 }
